@@ -18,6 +18,12 @@ SEEDS = {
  'C16-sC': ('C16', 'Observable::operator-- implemented through operator-= / apply()', 'a decrement on an Observable whose equality calls old and old-1 equal (tolerance comparator, bucket comparator, large double)'),
  'C20-sA': ('C20', 'Thread::start captures the callable by reference again', 'the new thread uses the callable after start() returned and the stack was reused'),
  'C08-sB': ('C08', 'ThreadPool: m_isRunning becomes std::atomic<bool> and stop() clears it without the queue mutex', 'stop() lands between a worker\'s predicate evaluation and its blocking'),
+ 'C05-s1': ('C05', 'Subject::notify snapshot becomes a std::vector filled with emplace_back (order no longer re-reversed)', 'two or more observers on one Subject: they are called newest-first'),
+ 'C05-s2': ('C05', 'Subject::unsubscribeById: remove_if replaced by a hand-written erase_after loop whose prev iterator is never advanced', 'two or more observers and an unsubscribe of one that is not the newest: the newest is destroyed instead'),
+ 'C05-s3': ('C05', 'Subject::unsubscribe(handle) validates only the id, not the owning subject', 'a foreign handle whose id is active in the target subject'),
+ 'C10-s1': ('C10', 'Subject::notify skips the id check while the number of subscriptions is unchanged', 'a callback that unsubscribes a not-yet-called neighbour AND subscribes a new observer in the same round'),
+ 'C10-s2': ('C10', 'Subject::notify keeps its snapshot in a reused member vector', 're-entrant notify from a callback after a membership change'),
+ 'C10-s3': ('C10', 'operands of the post-call check reordered: !observer->isValid() && isSubscriptionIdValid(id)', 'a callback that unsubscribes its own subscription'),
  'C15-sC': ('C15', 'ThreadPool::clear() gains an unlocked early exit on m_queue.size() == 0', 'clear() while workers are dequeuing'),
 }
 rows = []
